@@ -293,7 +293,8 @@ def write_replay(prop: str, failure: dict) -> Path:
     name = hashlib.sha1(json.dumps([failure['check'], failure['case']], sort_keys=True, default=str)
                         .encode()).hexdigest()[:16]
     p = d / f'found-{name}.json'
-    p.write_text(json.dumps(body, indent=1, sort_keys=True, default=str))
+    # key order is part of the case (the code under test may be sensitive to it): do not sort
+    p.write_text(json.dumps(body, indent=1, default=str))
     return p
 
 
@@ -399,8 +400,19 @@ def main(argv=None):
             if workers == 1:
                 results = [_worker(j) for j in jobs]
             else:
-                with mp.get_context('fork').Pool(min(workers, len(jobs))) as pool:
-                    results = pool.map(_worker, jobs, chunksize=1)
+                # ProcessPoolExecutor notices a worker killed by a crash of a C extension (a plain Pool would hang)
+                from concurrent.futures import ProcessPoolExecutor
+                from concurrent.futures.process import BrokenProcessPool
+                results = []
+                with ProcessPoolExecutor(min(workers, len(jobs)), mp_context=mp.get_context('fork')) as pool:
+                    futures = [pool.submit(_worker, j) for j in jobs]
+                    for j, f in zip(jobs, futures):
+                        try:
+                            results.append(f.result())
+                        except BrokenProcessPool:
+                            results.append({'stats': Stats().dump(), 'failures': [],
+                                            'error': f'worker process for {j[1]} died (interpreter crash in the code under '
+                                                     f'test or out of memory); seed {j[3]}'})
         else:
             results = []
         errors = []
